@@ -6,7 +6,8 @@
 
 package fastcgi
 
-//@ unit fcgi_records props=C13,C19 filter=`streamWriter\)\.(Write|Close)$|FCGIClient\)\.(writeBeginRequest|writeEndRequest|writePairs)$|record\)\.read$|fastcgi\.(encodeSize|header\)\.init)$|fastcgi\.newWriter$`
+//@ unit fcgi_records frames=on props=C13,C19 filter=`streamWriter\)\.(Write|Close)$|FCGIClient\)\.(writeBeginRequest|writeEndRequest|writePairs)$|record\)\.read$|fastcgi\.(encodeSize|header\)\.init)$|fastcgi\.newWriter$`
+//@ func (*bufWriter).Close
 //@ func (*FCGIClient).writeRecord
 //@   requires [len_fits] len(content) <= 65535
 
@@ -21,8 +22,10 @@ package fastcgi
 
 //@ func (*FCGIClient).writeBeginRequest
 //@ func (*FCGIClient).writeEndRequest
+//@   modifies E:uint8
 
 //@ func (*record).read
+//@   modifies record.rbuf
 //@   requires rec != nil
 //@   ensures [bounds] err == nil ==> len(buf) == int(rec.h.ContentLength)
 
@@ -38,6 +41,7 @@ package fastcgi
 //@ func newWriter
 //@   ensures result != nil
 //@ func (*FCGIClient).writePairs
+//@   modifies E:uint8
 //@   requires c != nil
 
 //@ func (*header).init
@@ -57,7 +61,7 @@ package fastcgi
 //@ axiom (b0 int, b1 int, b2 int, b3 int) (0 <= b0 && b0 < 128) ==> decode1(b0, b1, b2, b3) == b0
 //@ axiom (b0 int, b1 int, b2 int, b3 int) (128 <= b0 && b0 < 256) ==> decode1(b0, b1, b2, b3) == (b0 - 128) * 16777216 + b1 * 65536 + b2 * 256 + b3
 
-//@ unit stream_reader props=C13,C19 filter=`fastcgi\.streamReader\)\.Read$`
+//@ unit stream_reader frames=on props=C13,C19 filter=`fastcgi\.streamReader\)\.Read$`
 //@ // ghost: number of record reads on the connection that failed (set by the contract of record.read, nothing else)
 //@ ghost readFailures int
 //@ func (*record).read
@@ -75,7 +79,7 @@ package fastcgi
 //@   ensures [no_invented_bytes] (err == nil && len(old(w.buf)) > 0) ==> (n <= len(old(w.buf)) && len(w.buf) == len(old(w.buf)) - n)
 //@   ensures [error_reads_nothing] err != nil ==> n == 0
 
-//@ unit fastcgi_parse props=C13,C11 dispenser_variants=on nilchecks=on filter=`fastcgi\.(fastcgiParse|parseSRV)$`
+//@ unit fastcgi_parse frames=on props=C13,C11 dispenser_variants=on nilchecks=on filter=`fastcgi\.(fastcgiParse|parseSRV)$`
 //@ // The setup of one fastcgi rule. C11: safety and termination for every token sequence. C13 ("a request for an existing
 //@ // file with the rule's extension ... is sent to the responder", split at the configured split string): a preset
 //@ // (`fastcgi / addr php`) only supplies DEFAULTS - it is applied before the rule's own block is read, so ext/split/index
@@ -93,6 +97,7 @@ package fastcgi
 //@   requires [locator_has_the_srv_scheme] strings.HasPrefix(locator, "srv://")
 //@ extern path/filepath.Abs
 //@ func fastcgiParse
+//@   modifies Dispenser.cursor, Dispenser.nesting, Rule.Ext, Rule.IndexFiles, Rule.SplitPath, ghost:blockEntriesRead, ghost:presetApplied
 //@   requires c != nil && presetApplied == 0 && blockEntriesRead == 0
 //@   at call (*Dispenser).Next do presetApplied = 0
 //@   at call (*Dispenser).Next do blockEntriesRead = 0
